@@ -718,6 +718,9 @@ func (s *exprColumnNameRewriteVisitor) Enter(n ast.Node) (node ast.Node, skipChi
 // rewriteColumnNamesInExpr decorates the column names below an expression that takes no part in routing.
 // The visitor can report a column it cannot look up only by a panic, which is returned as an error.
 func rewriteColumnNamesInExpr(p *TableAliasStmtInfo, expr ast.ExprNode) (ret ast.ExprNode, err error) {
+	if _, isValue := expr.(*driver.ValueExpr); isValue {
+		return expr, nil
+	}
 	defer func() {
 		if e := recover(); e != nil {
 			err = fmt.Errorf("%v", e)
@@ -822,6 +825,20 @@ func handlePatternInExpr(p *TableAliasStmtInfo, expr *ast.PatternInExpr) (bool, 
 	if err != nil {
 		return false, nil, nil, fmt.Errorf("check PatternInExpr error: %v", err)
 	}
+
+	// the column names of an expression that is not a column, and those of the listed values, take no part
+	// in routing but are rewritten like everywhere else
+	if _, isColumn := expr.Expr.(*ast.ColumnNameExpr); !isColumn {
+		if expr.Expr, err = rewriteColumnNamesInExpr(p, expr.Expr); err != nil {
+			return false, nil, nil, fmt.Errorf("rewrite column names in PatternInExpr.Expr error: %v", err)
+		}
+	}
+	for i := range expr.List {
+		if expr.List[i], err = rewriteColumnNamesInExpr(p, expr.List[i]); err != nil {
+			return false, nil, nil, fmt.Errorf("rewrite column names in PatternInExpr.List error: %v", err)
+		}
+	}
+
 	if !need {
 		return false, nil, expr, nil
 	}
